@@ -97,6 +97,75 @@ pub fn check_valid_market(ctx: &mut Ctx, m: &Market, shape: &str) -> Option<FXRa
             }
         }
     }
+    // what Python reads: the `fx_array` / `fx_vector` tables, `base`, `currencies`, `rate`, and the constructor
+    // arguments a pickle round trip uses - all consistent with the n*n rates above
+    {
+        ctx.eval(6);
+        ctx.class("python-layer:accessors");
+        let py = guarded(|| (fx.verif_py_fx_array(), fx.verif_py_fx_vector(), fx.verif_py_base(), fx.verif_py_currencies(), fx.verif_py_ad(), fx.verif_py_getnewargs()));
+        match py {
+            Caught::Ok((arr, vecr, base, cur, ad, (args_rates, args_base))) => {
+                ctx.asserted((n * n + n + 4) as u64);
+                let mut bad: Option<String> = None;
+                if arr.len() != n || arr.iter().any(|row| row.len() != n) || vecr.len() != n || cur.len() != n {
+                    bad = Some("shape of fx_array / fx_vector / currencies".into());
+                } else {
+                    for a in 0..n {
+                        let ia = fx.get_ccy_index(&ccys[a]).unwrap_or(usize::MAX);
+                        for b in 0..n {
+                            let ib = fx.get_ccy_index(&ccys[b]).unwrap_or(usize::MAX);
+                            if ia >= n || ib >= n || num_value(&arr[ia][ib]).to_bits() != vals[a][b].to_bits() {
+                                bad = Some(format!("fx_array[{}][{}] is not rate({}, {})", ia, ib, m.ccys[a], m.ccys[b]));
+                            }
+                            match fx.verif_py_rate(&ccys[a], &ccys[b]) {
+                                Some(x) if num_value(&x).to_bits() == vals[a][b].to_bits() => {}
+                                _ => bad = Some(format!("rate_py({}, {}) differs from rate()", m.ccys[a], m.ccys[b])),
+                            }
+                        }
+                        if fx.verif_py_get_ccy_index(ccys[a]) != fx.get_ccy_index(&ccys[a]) {
+                            bad = Some("get_ccy_index".into());
+                        }
+                    }
+                    // the vector is the base currency's row; the base is the first currency (and the one given)
+                    let ib = fx.get_ccy_index(&base).unwrap_or(usize::MAX);
+                    if ib != 0 || cur[0] != base || m.base.map_or(false, |bi| ccys[bi] != base) {
+                        bad = Some("base is not the first currency / not the base given".into());
+                    } else {
+                        for j in 0..n {
+                            if num_value(&vecr[j]).to_bits() != num_value(&arr[0][j]).to_bits() {
+                                bad = Some("fx_vector is not the base row of fx_array".into());
+                            }
+                        }
+                    }
+                    if ad != 1 {
+                        bad = Some(format!("a freshly built market reports derivative order {}", ad));
+                    }
+                    // rebuilt from the pickle constructor arguments: the same market
+                    match FXRates::verif_py_new(args_rates, args_base) {
+                        Ok(re) => {
+                            let _ = rateslib::verif::fx_take_trace();
+                            if !fx.verif_py_eq(re.clone()) || !(re == fx) {
+                                bad = Some("market rebuilt from __getnewargs__ is not equal".into());
+                            }
+                        }
+                        Err(()) => bad = Some("__getnewargs__ do not rebuild the market".into()),
+                    }
+                }
+                if let Some(w) = bad {
+                    ctx.violation("C09|python-layer|accessors", json!({"market": m.describe(), "what": w}));
+                    return None;
+                }
+            }
+            Caught::Panic { loc, msg } => {
+                if is_harness_location(&loc) {
+                    ctx.harness_error(format!("{} {}", loc, msg));
+                } else {
+                    ctx.violation(&format!("C09|python-layer|panic|{}", short_loc(&loc)), json!({"market": m.describe(), "message": msg}));
+                }
+                return None;
+            }
+        }
+    }
     // exactly the n*n crosses: a currency the market does not contain has no rate (and asking is not an abort)
     {
         let foreign = Ccy::try_new("xof").unwrap();
@@ -399,6 +468,7 @@ impl Prop for C09 {
         v.push("after-update:base-none".to_string());
         v.push("after-order-switches:2-then-1".to_string());
         v.push("after-order-switches:2-then-0".to_string());
+        v.push("python-layer:accessors".to_string());
         v
     }
     fn min_evaluations(&self, tier: Tier) -> u64 {
